@@ -5,7 +5,11 @@ output plugins' OWN error classification (which failures their out function repo
 
 1. elasticsearch: specs/EsSplit.tla is the transcription of out()/send/sendSplit against a scripted backend; TLC checks
    (a) nil only if accepted or refused for good, (b) a retryable answer is reported as an error, (c) ranges in order /
-   nothing resent, rejects the spec mutant M_StatusOfFailingRequest, and exports every script. Each script is replayed
+   nothing resent, (d) out() itself feeds nothing to the dead queue (only the give-up does), rejects the spec mutants
+   M_StatusOfFailingRequest and M_DeadQueueOnlyOnGiveUp, and exports every script.  A script whose result is not "err"
+   (success or deliberate drop): the dead queue receives nothing, every event is committed once by the main batcher
+   (else es_dead_queue_fed_without_give_up); "err" with a dead queue and the retries used up: every event goes to the dead
+   queue once and is not committed by the main batcher (else output_dead_queue_handover). Each script is replayed
    on the REAL plugin (real Start, RetriableBatcher, Out) with an in-process backend, in the variants
    {later attempts ok | same script again (exhaustion)} x {dead queue or not} x retry, and one ordered log of requests,
    commits, dead-queue hand-overs and error-callback runs is compared with the expectation.
@@ -45,12 +49,21 @@ def judge_common(rec_base, log, ids, expect_fail_first, later, dq, retry, attemp
     if early:
         recs.append(dict(rec_base, kind="output_commit_while_pending", attempts=attempts, log=log))
     if not expect_fail_first:
-        if sorted(commits) != sorted(ids) or dqs or errcb:
+        # reported as a success (accepted, or the deliberate drop): no give-up, so the dead queue receives NOTHING and the
+        # main batcher commits every event exactly once -- the batch goes one way
+        if dqs:
+            recs.append(dict(rec_base, kind=pfx + "_dead_queue_fed_without_give_up", dq=dqs, commits=commits, errcb=errcb,
+                             also_committed_by_main=sorted(set(dqs) & set(commits)), log=log))
+        elif sorted(commits) != sorted(ids) or errcb:
             recs.append(dict(rec_base, kind=pfx + "_success_not_committed_once", commits=commits, dq=dqs, errcb=errcb, log=log))
         return recs
     if later == "ok":
         if attempts < 2:
             recs.append(dict(rec_base, kind=pfx + "_commit_without_retry", attempts=attempts, commits=commits, log=log))
+        elif dqs:
+            # the retry succeeded: nothing was given up
+            recs.append(dict(rec_base, kind=pfx + "_dead_queue_fed_without_give_up", dq=dqs, commits=commits, errcb=errcb,
+                             also_committed_by_main=sorted(set(dqs) & set(commits)), log=log))
         elif sorted(commits) != sorted(ids) or dqs or errcb:
             recs.append(dict(rec_base, kind="output_after_retry_not_committed_once", commits=commits, dq=dqs, errcb=errcb, log=log))
         return recs
@@ -102,13 +115,19 @@ def es_stage(ctx, recs):
                 overrides={"M_StatusOfFailingRequest": "FALSE"}, name="EsSplit mutant M_StatusOfFailingRequest off")
     if m.ok or m.kind != "invariant":
         raise vlib.Infra("spec mutant M_StatusOfFailingRequest=FALSE is not rejected (ok=%s %s)" % (m.ok, m.violated))
+    # "a non-retryable status also feeds the dead queue" (and out() still returns nil): the batch would go two ways
+    m = ctx.tlc("EsSplit", "EsSplit_mut.cfg", deadlock=False, timeout=1800, workers=4,
+                overrides={"M_DeadQueueOnlyOnGiveUp": "FALSE"}, name="EsSplit mutant M_DeadQueueOnlyOnGiveUp off")
+    if m.ok or m.kind != "invariant" or m.violated != "DeadQueueOnlyOnGiveUp":
+        raise vlib.Infra("spec mutant M_DeadQueueOnlyOnGiveUp=FALSE is not rejected by DeadQueueOnlyOnGiveUp (ok=%s %s)" % (m.ok, m.violated))
     scripts.sort(key=lambda c: json.dumps(c, sort_keys=True))
     cases = []
     for s in scripts:
         if s["result"] == "err":
             variants = [(later, dq, retry) for later in ("ok", "same") for dq in (False, True) for retry in (0, 2)]
         else:
-            variants = [("ok", False, 1), ("same", True, 1)]
+            # success / deliberate drop: no give-up whatever the dead queue / retry setting -- the dead queue stays empty
+            variants = [("ok", False, 1), ("same", True, 1), ("ok", True, 0)]
         for later, dq, retry in variants:
             cases.append({"idx": len(cases), "n": s["n"], "split": s["split"], "script": s["script"], "later": later,
                           "dq": dq, "retry": retry, "result": s["result"]})
